@@ -32,6 +32,7 @@ namespace {
         OP_CB_DESTROY = 8,     // b = callback id
         OP_REQUEST_STOP = 9,   // a = state
         OP_YIELD = 10,
+        OP_SRC_MOVE_ASSIGN = 11,    // move-assign the newest local source onto the second newest (same or another state), or onto itself
     };
     enum
     {
@@ -215,6 +216,42 @@ namespace {
                     probe("src.copy_assign");
                 }
                 break;
+            case OP_SRC_MOVE_ASSIGN:
+                if (L.src.size() >= 2)
+                {
+                    size_t n = L.src.size();
+                    int from = L.src_state[n - 1], old = L.src_state[n - 2];
+                    St[old].inflight_src_ops++;
+                    St[from].inflight_src_ops++;
+                    L.src[n - 2] = std::move(L.src[n - 1]);    // the overwritten state loses one source
+                    St[old].live_sources--;
+                    L.src_state[n - 2] = from;
+                    L.src.pop_back();    // moved-from: owns nothing
+                    L.src_state.pop_back();
+                    St[old].inflight_src_ops--;
+                    St[from].inflight_src_ops--;
+                    VH_CHECK(L.src.back().stop_possible(), "C14.stop_possible", "move-assigned source lost its state");
+                    probe(from == old ? "src.move_assign_same_state" : "src.move_assign");
+                }
+                else if (L.src.size() == 1)
+                {
+                    // self move-assignment leaves the source valid but unspecified: the model accepts either
+                    // "still owns its state" or "empty", nothing else may change
+                    int ss = L.src_state.back();
+                    St[ss].inflight_src_ops++;
+                    pika::stop_source& self = L.src.back();
+                    self = std::move(self);
+                    if (!self.stop_possible() && !(St[ss].winners > 0))
+                    {
+                        // it let go of its state: account for it as destroyed
+                        St[ss].live_sources--;
+                        L.src.pop_back();
+                        L.src_state.pop_back();
+                    }
+                    St[ss].inflight_src_ops--;
+                    probe("src.self_move_assign");
+                }
+                break;
             case OP_SRC_SWAP:
                 if (L.src.size() >= 2)
                 {
@@ -317,12 +354,13 @@ namespace {
                 Op op;
                 op.v[0] = (int64_t) r.below((uint64_t) nparties);
                 uint64_t x = r.below(100);
-                int k = x < 8 ? OP_SRC_COPY :
+                int k = x < 9 ? OP_SRC_COPY :
                     x < 13    ? OP_SRC_DESTROY :
-                    x < 17    ? OP_SRC_MOVE :
-                    x < 22    ? OP_SRC_ASSIGN :
-                    x < 25    ? OP_SRC_SWAP :
-                    x < 35    ? OP_TOKEN_CHECK :
+                    x < 15    ? OP_SRC_MOVE :
+                    x < 20    ? OP_SRC_MOVE_ASSIGN :
+                    x < 24    ? OP_SRC_ASSIGN :
+                    x < 27    ? OP_SRC_SWAP :
+                    x < 36    ? OP_TOKEN_CHECK :
                     x < 58    ? OP_CB_CONSTRUCT :
                     x < 74    ? OP_CB_DESTROY :
                     x < 90    ? OP_REQUEST_STOP :
